@@ -321,3 +321,109 @@ def expected(sp):
                 regs[index] = regs.get(index, 0) + scale
             ops.append(("mem", size, seg, frozenset(regs.items()), disp & 0xFFFFFFFF))
     return nf.canon_mn(sp["mn"]), ops
+
+
+# ---- presentation-only variants of the Intel text (C19) ------------------------------------------
+def num_variant(v, style):
+    if style == "hex":
+        return ("-0x%x" % -v) if v < 0 else ("0x%x" % v)
+    if style == "HEX":
+        return ("-0X%X" % -v) if v < 0 else ("0X%X" % v)
+    if style == "lead0":
+        return ("-0x%08x" % -v) if v < 0 else ("0x%08x" % v)
+    if style == "wrap32hex":
+        return "0x%X" % (v & 0xFFFFFFFF)
+    if style == "wrap32dec":
+        return str(v & 0xFFFFFFFF)
+    return str(v)
+
+
+def intel_variant(sp, opt):
+    """opt keys: regcase ('upper'), kwcase ('lower'), space (int), num (style), num32 (style for 32-bit immediates/displacements),
+    memorder (0..3), pct (bool), st ('st(0)'|'ST'...)"""
+    def reg(r):
+        if r == "st" and opt.get("st"):
+            r = opt["st"]
+        if opt.get("regcase") == "upper":
+            r = r.upper()
+        if opt.get("pct"):
+            r = "%" + r
+        return r
+
+    def kw(size):
+        k = SIZEKW[size] + " PTR"
+        return k.lower() if opt.get("kwcase") == "lower" else k
+
+    sp_ = " " * opt.get("space", 0)
+
+    def number(v, is32):
+        st_ = opt.get("num32") if (is32 and opt.get("num32")) else opt.get("num", "dec")
+        return num_variant(v, st_)
+
+    def memop(o):
+        _, size, seg, base, index, scale, disp = o
+        terms = []
+        if base:
+            terms.append(reg(base))
+        if index:
+            if scale == 1:
+                terms.append(reg(index))
+            elif opt.get("memorder") == 2:
+                terms.append("%d%s*%s%s" % (scale, sp_, sp_, reg(index)))
+            else:
+                terms.append("%s%s*%s%d" % (reg(index), sp_, sp_, scale))
+        unambiguous = not (base and index and scale == 1)
+        mo = opt.get("memorder", 0)
+        if mo in (1, 2) and unambiguous and len(terms) == 2:
+            terms = [terms[1], terms[0]]
+        d = None
+        if disp or not terms:
+            d = number(abs(disp) if terms and opt.get("num32") is None else disp, True)
+        s = ""
+        if size:
+            s += kw(size) + " "
+        if seg:
+            s += reg(seg) + ":"
+        plus = sp_ + "+" + sp_
+        if not terms:
+            return s + "[" + sp_ + number(disp, True) + sp_ + "]"
+        if d is None:
+            return s + "[" + sp_ + plus.join(terms) + sp_ + "]"
+        if opt.get("num32") is None:
+            sign = "-" if disp < 0 else "+"
+            if mo == 3 and unambiguous and disp >= 0:
+                return s + d + "[" + sp_ + plus.join(terms) + sp_ + "]"          # displacement outside the brackets
+            if mo == 1 and unambiguous and disp >= 0:
+                return s + "[" + sp_ + d + plus + plus.join(terms) + sp_ + "]"      # displacement first
+            return s + "[" + sp_ + plus.join(terms) + sp_ + sign + sp_ + d + sp_ + "]"
+        return s + "[" + sp_ + plus.join(terms) + plus + d + sp_ + "]"
+
+    ops = []
+    for o, cls in zip(sp["ops"], sp.get("shape") or [None] * len(sp["ops"])):
+        if o[0] == "reg":
+            ops.append(reg(o[1]))
+        elif o[0] in ("imm", "rel"):
+            ops.append(number(o[1], cls == "i32"))
+        else:
+            ops.append(memop(o))
+    sep = "," + (" " * (1 + opt.get("space", 0)) if opt.get("space", 0) != 9 else "\t")
+    return (sp["mn"] + " " + " " * opt.get("space", 0) + sep.join(ops)).rstrip()
+
+
+REWRITES = {
+    "register-case": {"regcase": "upper"},
+    "keyword-case": {"kwcase": "lower"},
+    "spacing": {"space": 2},
+    "tab-after-comma": {"space": 9},
+    "hexadecimal": {"num": "hex"},
+    "hexadecimal-0X": {"num": "HEX"},
+    "leading-zeros": {"num": "lead0"},
+    "minus-one-as-0xFFFFFFFF": {"num32": "wrap32hex"},
+    "minus-one-as-4294967295": {"num32": "wrap32dec"},
+    "memory-term-order": {"memorder": 1},
+    "scale-before-index": {"memorder": 2},
+    "displacement-outside-brackets": {"memorder": 3},
+    "percent-prefix": {"pct": True},
+    "st-as-st(0)": {"st": "st(0)"},
+    "ST-uppercase": {"st": "ST", "regcase": "upper"},
+}
